@@ -104,7 +104,22 @@ fn biased_prefix(rng: &mut Rng) -> Vec<BOp> {
     // name(target = a function, "main"/"f"): argument seeds 4 and 28 are 1 mod 3 -> not a near-repeat; seed % 2 == 0 picks a
     // function id, seed % 3 != 0 picks a pool name (see Drv::bias_arguments)
     let name_fn = |rng: &mut Rng| BOp::Call { method: "name".into(), arg_seed: *rng.pick(&[2u64, 8, 14, 20, 26, 32, 38, 44]), explicit_rid: false, ip_kind: 0, ip_k: 0 };
-    match rng.below(7) {
+    let call = |m: &str, seed: u64, explicit: bool| BOp::Call { method: m.into(), arg_seed: seed, explicit_rid: explicit, ip_kind: 0, ip_k: 0 };
+    match rng.below(9) {
+        // recursive types: ids reserved, a forward pointer naming one of them, a struct containing it, then the pointer
+        // itself declared with that reserved id as its EXPLICIT result id (storage classes from a small domain)
+        7 | 8 => {
+            let mut v = vec![BOp::Id, BOp::Id];
+            v.push(call("type_forward_pointer", rng.below(50) * 2, false));
+            if rng.chance(1, 2) {
+                v.push(call("type_struct", rng.below(20) * 5, false));
+            }
+            v.push(call("type_pointer", 100 + rng.below(900), true));
+            if rng.chance(1, 2) {
+                v.push(call("type_pointer", 100 + rng.below(900), true));
+            }
+            v
+        }
         // functions that share one (explicit) id, named, then selected by name while a block of the later one is open
         4 | 5 | 6 => {
             let mut v = vec![BOp::BeginFunction { explicit_id: rng.chance(1, 2), control: 0 }];
@@ -460,6 +475,7 @@ impl Property for C12 {
 
     fn execute(t: &Trace, cov: &mut Cov) -> RunOut {
         let mut d = Drv::new();
+        d.allow_ill_typed = true;
         let mut h = AbsHash::new();
         let mut viol = None;
         let mut changes = 0u32;
